@@ -321,9 +321,17 @@ pub struct Chain {
     pub ended: bool,
 }
 
+/// A tape whose asset never returns more than `chunk` bytes per read call (0 = unlimited)
+pub fn new_tap_chunked(image: &AssetData, chunk: usize) -> Result<RTap, String> {
+    Tap::from_asset(VAsset::from_data(image.clone()).chunked(chunk)).map_err(|e| format!("Tap::from_asset: {:?}", e))
+}
+
 /// Pre-pass over a fresh tape: play, then fixed steps until the deck stops by itself.
 pub fn build_chain(image: &AssetData, step: usize, max_t: u64) -> Result<Chain, String> {
-    let mut tap = new_tap(image);
+    build_chain_from(new_tap(image), image, step, max_t)
+}
+
+pub fn build_chain_from(mut tap: RTap, image: &AssetData, step: usize, max_t: u64) -> Result<Chain, String> {
     tap.play();
     let mut reloads = Vec::new();
     let mut pulses = Vec::new();
